@@ -46,6 +46,35 @@ Proof.
     try (exists (dedup cs), (dedup os); repeat split; auto using dedup_NoDup; apply dedup_In).
 Qed.
 
+(** ** the OpenMP entry point run by worker threads: [prange(number_parts, schedule="dynamic", chunksize=1)]
+    inside one parallel region per chunk file - an idle thread takes the next part index atomically (the
+    lock-protected queue of QueueTrace), the region ends with a barrier.  One schedule per file. *)
+Fixpoint file_traces (parts : list (list Z)) (n : nat) (files : list (list event)) (scheds : list (list nat))
+  : list (list (nat * action)) :=
+  match files, scheds with
+  | es :: fr, sc :: sr =>
+    wtrace (wrun (map (fun part => item_actions part es) parts) sc (winit (seq 0 (length parts)) n))
+    :: file_traces parts n fr sr
+  | _, _ => []
+  end.
+Fixpoint files_done (parts : list (list Z)) (n : nat) (files : list (list event)) (scheds : list (list nat)) : Prop :=
+  match files, scheds with
+  | [], [] => True
+  | es :: fr, sc :: sr =>
+    all_done (qs (wrun (map (fun part => item_actions part es) parts) sc (winit (seq 0 (length parts)) n))) = true
+    /\ files_done parts n fr sr
+  | _, _ => False
+  end.
+
+Lemma file_traces_interleaved parts n files scheds : (1 <= n)%nat ->
+  files_done parts n files scheds -> files_interleaved parts files (file_traces parts n files scheds).
+Proof.
+  intros Hn. revert scheds. induction files as [|es fr IH]; intros [|sc sr] H; cbn in *; try tauto.
+  destruct H as [H1 H2]. split; [|now apply IH].
+  pose proof (worker_trace_interleaving (map (fun part => item_actions part es) parts) n sc Hn) as W.
+  cbn zeta in W. rewrite map_length in W. now apply W.
+Qed.
+
 Section Main.
   Variable R : Type.
   Variables (rO rI : R) (radd rmul rsub : R -> R -> R) (ropp : R -> R).
@@ -185,5 +214,21 @@ Section Main.
     if mem_z o all then learn p (concat files) (kget n_cues m) o c else kget n_cues m o c.
   Proof.
     intros. apply openmp_any_schedule; auto. now apply omp_parts_concat.
+  Qed.
+
+  (** ... and end to end with the threads of every parallel region: whatever the schedules, once every
+      region has ended the memory holds the sequential result over all chunk files in order *)
+  Theorem openmp_workers_any_schedule p n_cues all chunk files n_threads scheds m o c :
+    (0 <= n_cues < two32)%Z -> NoDup all -> Forall oko32 all ->
+    (1 <= chunk)%Z -> (Z.of_nat (length all) + chunk <= two32)%Z ->
+    Forall (cues_ok (okc_n n_cues)) files -> (1 <= n_threads)%nat ->
+    files_done (omp_parts all chunk) n_threads files scheds ->
+    oko32 o -> okc_n n_cues c ->
+    kget n_cues (run_files R rO radd rmul rsub (kstore R) (kget n_cues) (kset n_cues) p
+                           (omp_parts all chunk) files
+                           (file_traces (omp_parts all chunk) n_threads files scheds) m) o c =
+    if mem_z o all then learn p (concat files) (kget n_cues m) o c else kget n_cues m o c.
+  Proof.
+    intros. apply openmp_any_chunksize; auto. now apply file_traces_interleaved.
   Qed.
 End Main.
